@@ -10,6 +10,7 @@ from .symval import (SymObj, ClassVal, PropertyVal, Closure, BoundMethod, Module
                      Raised, Phi, Vec, SymRaise, to_expr, merge, _alg, _MISSING)
 
 interp_f = sp.Function("interp")
+vec_f = sp.Function("vec")
 
 
 class StrSym:
@@ -714,6 +715,8 @@ def _math(I, name):
             def sy(v, nm):
                 if v is None:
                     return sp.Symbol("clamp")
+                if isinstance(v, Vec):
+                    return vec_f(*[to_expr(i) for i in v.items])
                 if _alg(v):
                     return to_expr(v)
                 return sp.Symbol(getattr(v, "name", nm))
